@@ -71,11 +71,76 @@ def node_classes(ns):
 # ---------------------------------------------------------------------------
 # show() oracle shared by both parts
 # ---------------------------------------------------------------------------
+class _ListBuffer(list):
+    """A collector that is an (initially empty, hence falsy) list."""
+
+    def write(self, text):
+        self.append(text)
+
+    def getvalue(self):
+        return "".join(self)
+
+
+class _FalsyBuffer:
+    """A writer whose truth value is False."""
+
+    def __init__(self):
+        self.parts = []
+
+    def __bool__(self):
+        return False
+
+    def write(self, text):
+        self.parts.append(text)
+
+    def getvalue(self):
+        return "".join(self.parts)
+
+
+class _SizedBuffer:
+    """A writer with __len__ (0 while nothing has been written)."""
+
+    def __init__(self):
+        self.parts = []
+
+    def __len__(self):
+        return len(self.parts)
+
+    def write(self, text):
+        self.parts.append(text)
+
+    def getvalue(self):
+        return "".join(self.parts)
+
+
+BUFFER_KINDS = [("io.StringIO", io.StringIO), ("list subclass with write()", _ListBuffer),
+                ("object with __bool__ == False", _FalsyBuffer), ("object with __len__ == 0", _SizedBuffer)]
+
+
 def show_problem(node, pre, kw):
-    """None or (kind, detail).  pre = [(depth, name_in_parent, node)]."""
-    buf = io.StringIO()
-    node.show(buf, **kw)
-    text = buf.getvalue()
+    """None or (kind, detail).  pre = [(depth, name_in_parent, node)].
+    show() is run once per kind of buffer object; everything must arrive in the
+    buffer that was passed and nothing on sys.stdout."""
+    import sys
+
+    texts = []
+    for kind, make in BUFFER_KINDS:
+        buf = make()
+        saved, sys.stdout = sys.stdout, io.StringIO()
+        try:
+            node.show(buf, **kw)
+            leaked = sys.stdout.getvalue()
+        finally:
+            sys.stdout = saved
+        got = buf.getvalue()
+        if leaked:
+            return ("show:writes-to-stdout-instead-of-the-given-buffer" if not got else "show:writes-to-stdout-too",
+                    f"buffer kind: {kind}; {len(leaked)} characters went to sys.stdout, {len(got)} into the buffer, flags {kw}")
+        texts.append(got)
+    if len(set(texts)) != 1:
+        k = next(i for i, t in enumerate(texts) if t != texts[0])
+        return "show:output-depends-on-buffer-kind", f"{BUFFER_KINDS[k][0]} received {len(texts[k])} characters, io.StringIO {len(texts[0])}, flags {kw}"
+    text = texts[0]
     if not text.endswith("\n"):
         return "show:no-final-newline", text[-80:]
     lines = text[:-1].split("\n")
@@ -429,6 +494,32 @@ def _wstate():
         return type("Only_" + nm, (c_ast.NodeVisitor,), {"__init__": init, "visit_" + nm: m, "generic_visit": g})
 
     _W["One"] = {nm: mk_one(nm) for nm in _W["names"]}
+
+    def mk_hook(nm, own_generic):
+        """visit() overridden as a recording hook that delegates to
+        NodeVisitor.visit; optionally a visit_<nm> (non-descending) and an
+        overridden generic_visit."""
+        def init(self):
+            self.passed = []
+            self.hit = []
+            self.gen = []
+
+        def visit(self, n):
+            self.passed.append(id(n))
+            return c_ast.NodeVisitor.visit(self, n)
+        d = {"__init__": init, "visit": visit}
+        if nm is not None:
+            def m(self, n):
+                self.hit.append(id(n))
+            d["visit_" + nm] = m
+        if own_generic:
+            def g(self, n):
+                self.gen.append(id(n))
+                c_ast.NodeVisitor.generic_visit(self, n)
+            d["generic_visit"] = g
+        return type(f"Hook_{nm}_{int(own_generic)}", (c_ast.NodeVisitor,), d)
+
+    _W["Hook"] = {(nm, g): mk_hook(nm, g) for nm in [None] + _W["names"] for g in (False, True)}
     return _W
 
 
@@ -542,9 +633,36 @@ def check_tree(root, W, stats):
             out.append((f"visit_|{nm}|{kind}", f"visit_{nm} intercepted {len(v.hit)} nodes, expected {len(want_hit)}"))
         elif v.gen != want_gen:
             out.append((f"visit_|{nm}|generic-part", f"generic_visit saw {len(v.gen)} nodes, expected {len(want_gen)}"))
+    # 4b. subclasses that override visit() as a hook: every node that the traversal
+    #     handles must pass through visit() exactly once, in preorder
+    for nm in [None] + sorted(present):
+        if nm is None:
+            want_pass, want_hit = ids, []
+        else:
+            cut = astspec.preorder(by, root, stop_class=nm)
+            want_pass = [id(n) for _, _, n in cut]
+            want_hit = [id(n) for _, _, n in cut if n.__class__.__name__ == nm]
+        for own_generic in (False, True):
+            v = W["Hook"][(nm, own_generic)]()
+            v.visit(root)
+            stats["visitor_runs"] += 1
+            stats["hook_visitor_runs"] += 1
+            variant = ("with" if nm else "without") + "-visit_X/" + ("own" if own_generic else "inherited") + "-generic_visit"
+            if v.passed != want_pass:
+                from collections import Counter
+
+                kind = ("missed" if Counter(want_pass) - Counter(v.passed) else
+                        ("more-than-once" if Counter(v.passed) - Counter(want_pass) else "order"))
+                out.append((f"visit-hook:{variant}:{kind}",
+                            f"an overridden visit() saw {len(v.passed)} nodes, the traversal handles {len(want_pass)}"
+                            + (f" (visit_{nm} defined)" if nm else "")))
+            elif v.hit != want_hit:
+                out.append((f"visit-hook:{variant}:visit_X-interception", f"visit_{nm} intercepted {len(v.hit)} nodes, expected {len(want_hit)}"))
+            elif own_generic and v.gen != [i for i in want_pass if i not in set(want_hit)]:
+                out.append((f"visit-hook:{variant}:generic-part", f"generic_visit saw {len(v.gen)} nodes"))
     # 5. show
     for kw in SHOW_VARIANTS:
-        stats["show_runs"] += 1
+        stats["show_runs"] += len(BUFFER_KINDS)
         p = show_problem(root, pre, kw)
         if p:
             out.append(p)
@@ -713,7 +831,7 @@ def _hier_work(task):
 def _pool_work(items):
     W = _wstate()
     stats = {"nodes": 0, "classes": {}, "node_local": 0, "visitor_runs": 0, "show_runs": 0,
-             "intercepted": 0, "nested_same_class": 0, "attr_held": {}, "trees": 0, "skipped": 0,
+             "intercepted": 0, "nested_same_class": 0, "hook_visitor_runs": 0, "attr_held": {}, "trees": 0, "skipped": 0,
              "attr_roots": 0}
     fails = []
     hashes = set()
@@ -862,6 +980,8 @@ def run(tier):
     R.set("node_classes_reached", stats.get("classes", {}))
     R.set("visitor_runs", stats.get("visitor_runs", 0))
     R.set("show_runs", stats.get("show_runs", 0))
+    R.set("show_buffer_kinds", [k for k, _ in BUFFER_KINDS])
+    R.set("visit_hook_visitor_runs", stats.get("hook_visitor_runs", 0))
     R.set("visit_X_nodes_intercepted", stats.get("intercepted", 0))
     R.set("visit_X_runs_with_nested_same_class", stats.get("nested_same_class", 0))
     R.set("nodes_held_in_attribute_fields", stats.get("attr_held", {}))
@@ -880,7 +1000,9 @@ def run(tier):
         "every class of _c_ast.cfg x every subset of single children absent x every sequence child in "
         "{None, [], [n], [n,n']} on the checked-in module and on a module regenerated from the cfg (each compared "
         "with the specification and with each other); every AST of the program pool x {counting visitor, all-classes "
-        "visitor, one visit_X visitor per class, 8 show() variants, children()/iteration of every node}; every class X x 5 "
+        "visitor, one visit_X visitor per class, visitors overriding visit() as a hook (with/without a visit_X for every class "
+        "present, with/without an own generic_visit), 8 show() variants x 4 kinds of buffer object with sys.stdout captured, "
+        "children()/iteration of every node}; every class X x 5 "
         "orders of use of visitor class hierarchies (plain NodeVisitor first, Base then Derived(Base)+visit_X, Derived "
         "then Base, alternating siblings, one class instantiated twice) on every hand-written tree containing X, in "
         "processes where other visitors ran before. "
@@ -897,7 +1019,7 @@ def replay(rep):
             print("program no longer parses:", o[1:])
             return 0
         stats = {"nodes": 0, "classes": {}, "node_local": 0, "visitor_runs": 0, "show_runs": 0,
-                 "intercepted": 0, "nested_same_class": 0}
+                 "intercepted": 0, "nested_same_class": 0, "hook_visitor_runs": 0}
         roots = [o[1]] + [n for _, n in attr_held_nodes(W["by"], o[1])]
         if "hierarchy_class" in c:
             hs = {"hierarchy_visitor_runs": 0, "hierarchy_cases": 0}
